@@ -169,6 +169,11 @@ def build(spec, salt=None, base=0, stop_before_start=False) -> Built:
     if stop_before_start:
         b.dsg = dsg
         return b
+    if spec.get('restart_first'):
+        # the graph is initialised twice: first with a subset of the start nodes, then (on the result) with all of them
+        first = dsg.set_start_nodes({b.node[s] for s in spec['restart_first']})
+        if all(b.node[s] in first.graph.nodes for s in spec['start']):   # (else the second call would be invalid input)
+            dsg = first
     dsg = dsg.set_start_nodes({b.node[s] for s in spec['start']})
     for con in spec.get('cons', []):
         members = [b.choice[m] if m in b.choice else b.node[m] for m in con['on']]
